@@ -1,10 +1,12 @@
 #!/bin/sh
 # run every claimed check with several seeds on the current tree; print only non-clean results
-cd /verif
+# usage: SEEDS="1 2 3" TIER=quick findings/multiseed.sh     (run from anywhere; works in a `vp run` snapshot)
+cd "$(dirname "$0")/.." || exit 2
 for p in $(python3 -c "import json;print(' '.join(c['property_id'] for c in json.load(open('MANIFEST.json'))['checks']))" 2>/dev/null); do
   for sd in ${SEEDS:-1 2 3 4 5}; do
     out=$(VERIF_SEED=$sd ./check $p --tier ${TIER:-quick} 2>&1); rc=$?
-    if [ $rc -ne 0 ]; then echo "== $p seed=$sd rc=$rc"; echo "$out" | grep -v KNOWN | tail -4; fi
+    echo "$out" | tail -1
+    if [ $rc -ne 0 ]; then echo "== $p seed=$sd rc=$rc"; echo "$out" | grep -v KNOWN | tail -6; fi
   done
 done
 echo "multiseed done"
